@@ -116,6 +116,9 @@ type FlowScenario struct {
 	Steps        []Step        `json:"steps"`
 	// Pairs [i, j]: runs i and j are runs of two nodes configured alike through different construction styles (C19)
 	Pairs [][]int `json:"pairs,omitempty"`
+	// RBudget (family "rflow"): the retry budget given to the ROOT flow of the (only) run through its embedded BaseNode,
+	// `flyt.WithMaxRetries(n)(flow.BaseNode)`, before the run
+	RBudget *int `json:"rbudget,omitempty"`
 }
 
 type RunObs struct {
@@ -1321,6 +1324,15 @@ func execFlowScenario(sc *FlowScenario) FlowObs {
 		valueImpls = e.valueNodes
 	}
 	obs := FlowObs{Runs: []RunObs{}}
+	if sc.RBudget != nil {
+		for _, st := range sc.Steps {
+			if st.Run != nil {
+				if f, ok := e.nodes[*st.Run].(*flyt.Flow); ok {
+					flyt.WithMaxRetries(*sc.RBudget)(f.BaseNode)
+				}
+			}
+		}
+	}
 	for _, st := range sc.Steps {
 		switch {
 		case st.Run != nil:
